@@ -9,8 +9,10 @@
    escape into containers.  Field values are atoms (hval); records are flat lists of atoms.
 
    Objects     oid = nat; the heap maps an oid to its current content; g_next is the allocation counter.
-   Sources     a fixed list srcs of oids: the rows of the input table and of the join table, and the containers the
-               engine keeps them in (the lists handed out by get_rhs).  Everything else is "owned".
+   Sources     a fixed list srcs of oids: the rows of the input table and of the join table, the containers the engine
+               keeps them in (the lists handed out by get_rhs) and every list-valued CELL reachable from a row (record
+               copies are shallow: a cell object is shared between a source row and its copies).  Everything else is
+               "owned".
    Pool        g_pool: the owned objects that have escaped into a container or an attribute (SStore) plus the objects
                the writers owned before the query started; RLoad / RElem of an owned container pick from it.
    Log         g_log: every object that was handed to a writer's write method (SEmit), at every level of the chain.
@@ -34,6 +36,8 @@ Inductive rhs :=
 | RFresh                       (* list display, comprehension, call known to build a new list *)
 | RSrc                         (* get_record(), get_rhs(..): some source object *)
 | RElem (x : hvar)             (* an element of container x: a source if x is a source, else an escaped owned object *)
+| RCell (x : hvar)             (* a CELL of row x (x[i] where x is a flat record): rows are copied shallowly, so the cell of
+                                  any row - even a fresh one - may be an object shared with a source row: never owned *)
 | RLoad.                       (* an object read back from writer-owned state *)
 
 Inductive stmt :=
@@ -85,6 +89,7 @@ Section Semantics.
   | E_src : forall i, In i srcs -> eval_rhs e g RSrc i g
   | E_elem_src : forall x j i, e x = Some j -> In j srcs -> In i srcs -> eval_rhs e g (RElem x) i g
   | E_elem_own : forall x j i, e x = Some j -> ~ In j srcs -> In i (g_pool g) -> eval_rhs e g (RElem x) i g
+  | E_cell : forall x j i, e x = Some j -> In i srcs \/ In i (g_pool g) -> eval_rhs e g (RCell x) i g
   | E_load : forall i, In i (g_pool g) -> eval_rhs e g RLoad i g.
 
   Inductive exec : stmt -> env -> gstate -> outcome -> env -> gstate -> Prop :=
@@ -151,7 +156,7 @@ Definition rhs_clean (c : list hvar) (r : rhs) : bool :=
   match r with
   | RVar x => vmem x c
   | RCopy _ | RConcat _ | RFresh | RLoad => true
-  | RSrc => false
+  | RSrc | RCell _ => false
   | RElem x => vmem x c
   end.
 
